@@ -37,19 +37,26 @@ class DockerLauncher:
 
     def start(self, node_configurations):
         nodes = []
-        for node_configuration in node_configurations:
-            node_name = node_configuration.node_name
-            host_name = node_configuration.ip
-            binary_path = node_configuration.binary_path
-            self.logger.info("Starting node [%s] in Docker.", node_name)
-            self._start_process(binary_path)
-            node_telemetry = [
-                # Don't attach any telemetry devices for now but keep the infrastructure in place
-            ]
-            t = telemetry.Telemetry(devices=node_telemetry)
-            node = cluster.Node(0, binary_path, host_name, node_name, t)
-            t.attach_to_node(node)
-            nodes.append(node)
+        try:
+            for node_configuration in node_configurations:
+                node_name = node_configuration.node_name
+                host_name = node_configuration.ip
+                binary_path = node_configuration.binary_path
+                self.logger.info("Starting node [%s] in Docker.", node_name)
+                node_telemetry = [
+                    # Don't attach any telemetry devices for now but keep the infrastructure in place
+                ]
+                t = telemetry.Telemetry(devices=node_telemetry)
+                node = cluster.Node(0, binary_path, host_name, node_name, t)
+                # keep track of the node before it is started: its container may come up but never get healthy
+                nodes.append(node)
+                self._start_process(binary_path)
+                t.attach_to_node(node)
+        except BaseException:
+            # the caller never gets to know the containers that have been started so far and thus cannot stop them later
+            self.logger.exception("Could not start all nodes on this host. Stopping the [%d] node(s) that have been started.", len(nodes))
+            self.stop(nodes, metrics_store=None)
+            raise
         return nodes
 
     def _start_process(self, binary_path):
